@@ -93,7 +93,8 @@ func (m ReceiverMeta) Reduce(
 func (v ReceiverMeta) RetValsRange() common.ResolvedRange {
 	switch len(v.RetVals) {
 	case 0:
-		return common.ResolvedRange{}
+		// Nothing to point at - fall back to the method itself rather than to the beginning of the file
+		return v.Range
 	case 1:
 		return common.ResolvedRange{
 			StartLine: v.RetVals[0].Range.StartLine,
